@@ -1,6 +1,7 @@
 ----------------------------- MODULE LimiterGen -----------------------------
 (* Scenario generation for the rate limiter: behaviours of Limiter.tla written down as scripts of controllable steps
-   (who reads the clock when with which n, whose script runs when, by how many ticks the clock advances) together with
+   (who reads the clock when with which n and which option list, whose script runs when, by how many ticks the clock
+   advances) together with
    the outcome Limiter.tla predicts for every call.  luadrv-style replay: limiterdrv realises a tick as a fixed slice
    of real time (see the driver) and executes the steps against the real rueidislimiter.                     *)
 EXTENDS Limiter
@@ -12,8 +13,15 @@ gvars == <<vars, hist, nadv>>
 
 GInit == Init /\ hist = <<>> /\ nadv = 0
 
-Step(a, c, i, k, d) == [a |-> a, c |-> c, id |-> i, n |-> k, d |-> d, clock |-> clock', allowed |-> FALSE, remaining |-> 0,
+\* every step record has the same fields.  lim/w: the limit and window in force for the call (the default when it passes
+\* no option); nopt: how many options the call passes (0, 1, 2); lim0/w0: the option in front of the one in force when
+\* there are two.  Ret steps carry what Limiter.tla predicts for the call.
+Step(a, c, i, k, d) == [a |-> a, c |-> c, id |-> i, n |-> k, d |-> d, clock |-> clock', lim |-> 0, w |-> 0, nopt |-> 0,
+                        lim0 |-> 0, w0 |-> 0, allowed |-> FALSE, remaining |-> 0,
                         cur |-> 0, wasreset |-> FALSE, resetrel |-> 0]
+WithOpt(st, os) == [st EXCEPT !.lim = InForce(os).lim, !.w = InForce(os).w, !.nopt = Len(os),
+                              !.lim0 = IF Len(os) > 1 THEN os[1].lim ELSE 0, !.w0 = IF Len(os) > 1 THEN os[1].w ELSE 0]
+InCall(st, c) == [st EXCEPT !.lim = olim[c], !.w = ow[c]]
 
 Busy == \E c \in Callers : pc[c] = "ran"
 LastIsAdv == hist # <<>> /\ hist[Len(hist)].a = "Adv"
@@ -22,16 +30,17 @@ GAdvance(d) == /\ ~Busy /\ ~LastIsAdv /\ nadv < MaxAdv /\ ncalls < MaxCalls
                /\ Advance(d) /\ hist' = Append(hist, Step("Adv", 0, 0, 0, d)) /\ nadv' = nadv + 1
 \* callers are interchangeable: caller c+1 appears only after caller c
 Appeared == {hist[x].c : x \in 1..Len(hist)}
-GRead(c, i, k) == /\ ~Busy /\ (c = 1 \/ (c - 1) \in Appeared) /\ Read(c, i, k) /\ hist' = Append(hist, Step("Read", c, i, k, 0)) /\ UNCHANGED nadv
-GScript(c) == /\ ~Busy /\ Script(c) /\ hist' = Append(hist, Step("Script", c, cid[c], cn[c], 0)) /\ UNCHANGED nadv
+GRead(c, i, k, os) == /\ ~Busy /\ (c = 1 \/ (c - 1) \in Appeared) /\ Read(c, i, k, os) /\ Len(os) <= 2
+                      /\ hist' = Append(hist, WithOpt(Step("Read", c, i, k, 0), os)) /\ UNCHANGED nadv
+GScript(c) == /\ ~Busy /\ Script(c) /\ hist' = Append(hist, InCall(Step("Script", c, cid[c], cn[c], 0), c)) /\ UNCHANGED nadv
 \* the caller's return follows its script immediately (it is local to the caller)
 GRet(c) == /\ Ret(c) /\ UNCHANGED nadv
            /\ LET o == ResultOf(c) IN
-              hist' = Append(hist, [Step("Ret", c, o.id, o.n, 0) EXCEPT !.allowed = o.allowed, !.remaining = o.remaining,
+              hist' = Append(hist, [InCall(Step("Ret", c, o.id, o.n, 0), c) EXCEPT !.allowed = o.allowed, !.remaining = o.remaining,
                                        !.cur = o.cur, !.wasreset = o.wasreset, !.resetrel = o.reset - o.now])
 
 GNext == \/ \E d \in Jumps : GAdvance(d)
-         \/ \E c \in Callers, i \in Ids, k \in Ns : GRead(c, i, k)
+         \/ \E c \in Callers, i \in Ids, k \in Ns, os \in OptLists : GRead(c, i, k, os)
          \/ \E c \in Callers : GScript(c) \/ GRet(c)
 GSpec == GInit /\ [][GNext]_gvars
 
